@@ -23,8 +23,8 @@
     the model never guesses there.  [OErr] is claimed only where every continuation of the real
     code ends in [Err]: once a VALUES item is a non-literal expression (unary minus), the statement
     fails whether or not the rest of it parses.  Definitions only (proofs: Codec/SqlLoadLaws.v). *)
+From Coq Require Import Strings.String.
 From Coq Require Import List ZArith Bool.
-From Coq Require Strings.String.
 From VibeSQL Require Import Value.SqlValue Value.Dec Value.RStr Value.Temporal.
 From VibeSQL Require Import Lex.Splitter Lex.DumpLex Codec.SqlLiteral.
 Import ListNotations.
